@@ -10,6 +10,8 @@
 #include <sstream>
 #include <typeinfo>
 #include <map>
+#include <sys/wait.h>
+#include <unistd.h>
 
 using namespace SimTK;
 
@@ -288,6 +290,38 @@ int docStage(const std::string& sop) {
 }
 } // namespace
 
+// ---- subsystem back pointer probe --------------------------------------------------------------------------
+// PerSubsystemInfo keeps a pointer to the StateImpl that contains it; popping an allocation stack that holds a
+// cache entry with prerequisites goes through that pointer. The probe builds States with nlo..nhi subsystems
+// (by setNumSubsystems and by addSubsystem), gives each subsystem in turn such an entry and pops it. It runs in
+// a forked child so that a crash becomes a predicate value instead of an abort of the whole replay.
+static int backPointerProbe(int nlo, int nhi) {
+    std::fflush(stdout); std::fflush(stderr);
+    pid_t pid = fork();
+    if (pid < 0) return 0;
+    if (pid == 0) {
+        for (int viaAdd = 0; viaAdd < 2; ++viaAdd)
+            for (int n = nlo; n <= nhi; ++n)
+                for (int sub = 0; sub < n; ++sub) {
+                    State s;
+                    if (viaAdd) for (int i = 0; i < n; ++i) s.addSubsystem("s", "1"); else s.setNumSubsystems(n);
+                    Array_<DiscreteVarKey> dv; Array_<CacheEntryKey> ce;
+                    s.allocateCacheEntryWithPrerequisites(SubsystemIndex(sub), Stage::Position, Stage::Infinity,
+                                                          true, false, false, dv, ce, new Value<int>(0));
+                    for (int i = 0; i < n; ++i) s.advanceSubsystemToStage(SubsystemIndex(i), Stage::Topology);
+                    s.advanceSystemToStage(Stage::Topology);
+                    s.invalidateAll(Stage::Topology);
+                }
+        _exit(0);
+    }
+    int status = 0;
+    if (waitpid(pid, &status, 0) < 0) return 0;
+    return (WIFEXITED(status) && WEXITSTATUS(status) == 0) ? 0 : 1;
+}
+// Work-around used only when the probe failed, so that the rest of the replay can still run: copying a State
+// re-points the back pointers of the copy (StateImpl::copyFrom); the States repaired here are pristine.
+static void repairBackPointers(State& s) { State t(s); s = t; }
+
 int main(int argc, char** argv) {
     vh::Args args(argc, argv);
     bool full = false;
@@ -298,6 +332,8 @@ int main(int argc, char** argv) {
     }
     World w;
     std::vector<Shadow> sh;          // one per State object
+    int probe14 = -1, probe58 = -1;  // results of the back pointer probes (run with the first record)
+    bool firstRecord = true;
     long now = 0;
     std::string line;
     while (std::getline(std::cin, line)) {
@@ -330,6 +366,8 @@ int main(int argc, char** argv) {
                 w.sts.clear(); w.dead.clear(); w.snap.clear();
                 w.sts.emplace_back(new State()); w.dead.push_back(false);
                 w.sts[0]->setNumSubsystems(ns);
+                if (probe14 < 0) { probe14 = backPointerProbe(1, 4); probe58 = backPointerProbe(5, 8); }
+                if (probe14) repairBackPointers(*w.sts[0]);
                 touched = {0};
                 sh.assign(1, Shadow());
             } else if (op == "on") {
@@ -360,10 +398,12 @@ int main(int argc, char** argv) {
             } else if (op == "setNumSubs") {
                 int k, n; is >> k >> n; touched = {k};
                 w.sts.at(k)->setNumSubsystems(n);
+                if (probe14 > 0) repairBackPointers(*w.sts.at(k));
             } else if (op == "addSub") {
                 int k; is >> k; touched = {k};
                 SubsystemIndex sx = w.sts.at(k)->addSubsystem("s", "1");
                 res = "idx:" + std::to_string((int)sx);
+                if (probe14 > 0) repairBackPointers(*w.sts.at(k));
             } else if (op == "snap") {
                 int k; is >> k; touched = {k};
                 w.sts.at(k)->getSystemStageVersions(w.snap);
@@ -474,6 +514,11 @@ int main(int argc, char** argv) {
                 }
             }
             vh::P("validOnlyIfMarkedSince", ckey, nbad, 0.5);
+        }
+        if (firstRecord && probe14 >= 0) {
+            firstRecord = false;
+            vh::P("subsystemKeepsBackPointer", "subsystem_back_pointer.lost_with_1_to_4_subsystems", probe14, 0.5);
+            vh::P("subsystemKeepsBackPointer", "subsystem_back_pointer.lost_on_array_growth_5_plus_subsystems", probe58, 0.5);
         }
         if (havePline)   // property predicate: a cache entry reads valid only if it was marked valid since ...
             vh::P("neverMarkedInCopy_notValid", "copy.stale_stamp.cache_valid", pline, 0.5);
